@@ -32,6 +32,24 @@ theorem every_blend_mode_mapped_or_documented :
 theorem blend_func_table_as_modelled :
     ∀ e ∈ Generated.Blend.blendFuncModeKeys, e ∈ expectedFunction := by decide
 
+/-- The descriptor-key half of `BLEND_FUNC` (the keys layer effects and overlays carry): the mode each
+key names, written down independently of the table (the key `ligherColor` is spelt as the code spells it). -/
+def expectedDescriptorFunction : List (String × String) := [
+  ("Enum.Normal", "normal"), ("Enum.Dissolve", "dissolve"), ("Enum.Darken", "darken"),
+  ("Enum.Multiply", "multiply"), ("Enum.ColorBurn", "color_burn"), ("b'linearBurn'", "linear_burn"),
+  ("b'darkerColor'", "darker_color"), ("Enum.Lighten", "lighten"), ("Enum.Screen", "screen"),
+  ("Enum.ColorDodge", "color_dodge"), ("b'linearDodge'", "linear_dodge"), ("b'ligherColor'", "lighter_color"),
+  ("b'lighterColor'", "lighter_color"),
+  ("Enum.Overlay", "overlay"), ("Enum.SoftLight", "soft_light"), ("Enum.HardLight", "hard_light"),
+  ("b'vividLight'", "vivid_light"), ("b'linearLight'", "linear_light"), ("b'pinLight'", "pin_light"),
+  ("b'hardMix'", "hard_mix"), ("Enum.Difference", "difference"), ("Enum.Exclusion", "exclusion"),
+  ("Enum.Subtract", "subtract"), ("b'blendDivide'", "divide"), ("Enum.Hue", "hue"),
+  ("Enum.Saturation", "saturation"), ("Enum.Color", "color"), ("Enum.Luminosity", "luminosity")]
+
+/-- each descriptor key of `BLEND_FUNC` is mapped to the function of the mode it names -/
+theorem blend_func_descriptor_keys_as_modelled :
+    ∀ e ∈ Generated.Blend.blendFuncOtherKeys, e ∈ expectedDescriptorFunction := by decide
+
 /-- every function `BLEND_FUNC` can return (under any key) is modelled -/
 theorem blend_func_values_modelled :
     ∀ e ∈ Generated.Blend.blendFuncModeKeys ++ Generated.Blend.blendFuncOtherKeys,
